@@ -217,17 +217,20 @@ def distribute(idx, rep, rid):
     fi = idx.method("Registrar", "distribute_update")
     rep.analysed(fi)
     bad = None
+    base = K.instance_store(idx, "Registrar")
     for own_fails in (False, True):
-        told = []
-
         def upd(i, c, r, a, k, own_fails=own_fails):
-            told.append(r.name if isinstance(r, Obj) else str(r))
-            if own_fails and told[-1] == "self":
+            who = r.name if isinstance(r, Obj) else str(r)
+            i.record_call("told", who)
+            if own_fails and who == "self":
                 raise Raised("OSError")
 
         it = Interp(idx, types={"self": "Registrar"}, unknown_calls="residual", handlers={".metadata_update": upd, "self.metadata_update": upd})
-        ps = it.run_all(fi, args={"mdata": Obj("md")}, store={"self.listeners": [Obj("self"), Obj("l1"), Obj("l2")]})
+        st = dict(base)
+        st["self.listeners"] = [Obj("self"), Obj("l1"), Obj("l2")]
+        ps = it.run_all(fi, args={"mdata": Obj("md")}, store=st)
         for p in ps:
+            told = [c[1] for c in p.calls("told")]
             if not own_fails and (p.result[0] != "return" or told != ["self", "l1", "l2"]):
                 bad = bad or f"three listeners: told {told} ({p.result}); documented the registrar itself first, then every listener in order"
             if own_fails and p.result[0] != "raise":
